@@ -24,7 +24,12 @@ func SuggestionList(input string, options []string) []string {
 	}
 
 	sort.Slice(results, func(i, j int) bool {
-		return optionsByDistance[results[i]] < optionsByDistance[results[j]]
+		if optionsByDistance[results[i]] != optionsByDistance[results[j]] {
+			return optionsByDistance[results[i]] < optionsByDistance[results[j]]
+		}
+		// options at the same distance: by name, so that the order does not depend
+		// on the (map iteration) order in which the options were collected
+		return results[i] < results[j]
 	})
 	return results
 }
